@@ -36,3 +36,4 @@ import Tranp.Lemmas.AstPath.PathAlgebra
 import Tranp.Lemmas.AstPath.Relativefy
 import Tranp.Lemmas.AstPath.Depth
 import Tranp.Lemmas.AstPath.Find
+import Tranp.Lemmas.AstPath.Dsn
